@@ -489,4 +489,144 @@ theorem expRun_gap (c : ExpCfg) (st : List ExpElem) (freshs : List (List Rat))
         have := ih st' rows' hrun hsc' (fun fr' hfr => hs fr' (by simp [hfr])) t1' t2' h1 h2 (by omega)
         push_cast; omega
 
+/-! ### Poisson-interval encoder -/
+
+theorem scatter_drop_dropLast (n : Nat) (idx : List Nat) :
+    ((scatter (n + 2) idx).drop 1).dropLast = (List.range n).map fun t => decide (t + 1 ∈ idx) := by
+  have h1 : List.range (n + 2) = 0 :: (List.range (n + 1)).map Nat.succ := List.range_succ_eq_map
+  simp only [scatter, h1, List.map_cons, List.drop_succ_cons, List.drop_zero, List.map_map]
+  rw [List.range_succ, List.map_append]
+  simp [Function.comp_def]
+
+theorem cumsumNat_zeros (l : List Nat) (h : ∀ k ∈ l, k = 0) : ∀ t ∈ cumsumNat 0 l, t = 0 := by
+  induction l with
+  | nil => simp [cumsumNat]
+  | cons x xs ih =>
+    have hx : x = 0 := h x (by simp)
+    subst hx
+    intro t ht
+    simp only [cumsumNat, Nat.add_zero, List.mem_cons] at ht
+    rcases ht with h' | h'
+    · exact h'
+    · exact ih (fun k hk => h k (by simp [hk])) t h'
+
+theorem cumsumNat_last (acc : Nat) (l : List Nat) (hne : l ≠ []) (h : ∀ k ∈ l, 1 ≤ k) :
+    ∃ T ∈ cumsumNat acc l, acc + l.length ≤ T := by
+  induction l generalizing acc with
+  | nil => exact absurd rfl hne
+  | cons x xs ih =>
+    have hx : 1 ≤ x := h x (by simp)
+    by_cases hxs : xs = []
+    · subst hxs
+      exact ⟨acc + x, by simp [cumsumNat], by simp; omega⟩
+    · obtain ⟨T, hT, hle⟩ := ih (acc + x) hxs (fun k hk => h k (by simp [hk]))
+      exact ⟨T, by simp [cumsumNat, hT], by simp; omega⟩
+
+/-! ### encoder configuration -/
+
+/-- What every accepted encoder configuration satisfies. -/
+structure EncInv (s : EncState) : Prop where
+  steps_pos : 0 < s.steps
+  dt_pos : 0 < s.dt
+  freq_nonneg : 0 ≤ s.freq
+  refrac_nonneg : 0 ≤ s.refrac
+  derived : s.derive = true → s.refrac = s.dt
+  compat : s.comp = true → s.freq * s.refrac < 1000
+
+theorem encCtor_inv (steps : Int) (dt freq : Rat) (refrac : Option Rat) (comp : Bool) (s : EncState)
+    (h : encCtor steps dt freq refrac comp = some s) : EncInv s := by
+  unfold encCtor at h
+  split at h; · simp at h
+  split at h; · simp at h
+  split at h; · simp at h
+  rename_i h1 h2 h3
+  simp only [not_not] at h1 h2 h3
+  cases refrac with
+  | none =>
+    simp only at h
+    split at h; · simp at h
+    rename_i h4
+    simp only [Option.some.injEq] at h; subst h
+    exact ⟨h3, h2, h1, le_of_lt h2, fun _ => rfl, fun hc => by simp only [not_and, not_not] at h4; exact h4 hc⟩
+  | some r =>
+    simp only at h
+    split at h; · simp at h
+    split at h; · simp at h
+    rename_i h4 h5
+    simp only [Option.some.injEq] at h; subst h
+    exact ⟨h3, h2, h1, by simpa using h4, fun hd => by simp at hd, fun hc => by simp only [not_and, not_not] at h5; exact h5 hc⟩
+
+
+theorem encSet_inv (s s' : EncState) (op : CfgOp) (hi : EncInv s) (h : encSet s op = some s') :
+    EncInv s' := by
+  obtain ⟨i1, i2, i3, i4, i5, i6⟩ := hi
+  cases op with
+  | setSteps v =>
+    simp only [encSet] at h
+    split at h
+    · simp only [Option.some.injEq] at h; subst h; exact ⟨‹_›, i2, i3, i4, i5, i6⟩
+    · simp at h
+  | setDt v =>
+    by_cases hv : 0 < v
+    · by_cases hd : s.derive = true
+      · simp only [encSet, hv, not_true_eq_false, if_false, hd, if_true] at h
+        split at h; · simp at h
+        rename_i h2
+        simp only [not_and, not_not] at h2
+        simp only [Option.some.injEq] at h; subst h
+        exact ⟨i1, hv, i3, le_of_lt hv, fun _ => rfl, h2⟩
+      · have hd' : s.derive = false := by simpa using hd
+        simp only [encSet, hv, not_true_eq_false, if_false, hd', Bool.false_eq_true] at h
+        split at h; · simp at h
+        rename_i h2
+        simp only [not_and, not_not] at h2
+        simp only [Option.some.injEq] at h; subst h
+        exact ⟨i1, hv, i3, i4, fun hd'' => by simp at hd'', h2⟩
+    · simp [encSet, hv] at h
+  | setFreq v =>
+    simp only [encSet] at h
+    split at h; · simp at h
+    split at h; · simp at h
+    rename_i h1 h2
+    simp only [not_and, not_not] at h1
+    simp only [not_not] at h2
+    simp only [Option.some.injEq] at h; subst h
+    exact ⟨i1, i2, h2, i4, i5, h1⟩
+  | setRefrac r =>
+    cases r with
+    | none =>
+      simp only [encSet] at h
+      split at h; · simp at h
+      rename_i h1
+      simp only [not_and, not_not] at h1
+      simp only [Option.some.injEq] at h; subst h
+      exact ⟨i1, i2, i3, le_of_lt i2, fun _ => rfl, fun hc => by have := h1 hc; simp only; linarith⟩
+    | some r =>
+      simp only [encSet] at h
+      split at h; · simp at h
+      split at h; · simp at h
+      rename_i h1 h2
+      simp only [not_and, not_not] at h1
+      simp only [not_not] at h2
+      simp only [Option.some.injEq] at h; subst h
+      exact ⟨i1, i2, i3, h2, fun hd => by simp at hd, fun hc => by have := h1 hc; simp only; linarith⟩
+  | setComp b =>
+    simp only [encSet] at h
+    split at h; · simp at h
+    rename_i h1
+    simp only [not_and, not_not] at h1
+    simp only [Option.some.injEq] at h; subst h
+    exact ⟨i1, i2, i3, i4, i5, fun hc => h1 hc⟩
+
+theorem encRun_inv (s : EncState) (ops : List CfgOp) (hi : EncInv s) : EncInv (encRun s ops) := by
+  induction ops generalizing s with
+  | nil => exact hi
+  | cons op ops ih =>
+    simp only [encRun]
+    apply ih
+    unfold encStep
+    split
+    · rename_i s' h; exact encSet_inv s s' op hi h
+    · exact hi
+
 end InfernoVerif.Enc
